@@ -507,6 +507,43 @@ def foreign_attributes(ck, rng, i):
             ck.violation('kernel-sa-installed-with-a-key-length-the-peer-never-offered', {'bits': bits, 'offered_key_lengths': offered_child, 'policy': cpol}, sim.case)
 
 
+def ke_group_aliases(ck, rng, i):
+    """The 16-bit DH group number of a KE payload is compared as a whole: a KE payload whose group number only shares its low octet (or low bits) with
+    the chosen group is a KE payload in ANOTHER group: INVALID_KE_PAYLOAD naming the chosen group, no IKE_SA."""
+    g = [19, 14, 20, 21][i % 4]
+    alias = [g + 256, g + 512, g | 0x8000, g + 256 * 255, g << 8][(i // 4) % 5]
+    sim, a, b = S.make_pair(ck.seed * 19 + i, ike_b={'encr': ['aes256'], 'integ': ['sha256'], 'prf': ['sha256'], 'dh': [str(g)]})
+    sim.case = {'family': 'ke-group-alias', 'chosen_group': g, 'ke_group_field': alias}
+    p = party.RefParty(S.A4, S.B4, rng)
+    trs = [{'type': 1, 'id': 12, 'keylen': 256}, {'type': 3, 'id': 12, 'keylen': None}, {'type': 2, 'id': 5, 'keylen': None}, {'type': 4, 'id': g, 'keylen': None}]
+    req = p.init_request(trs, g)
+    m = codec.decode(req, strict_bodies=False)
+    for pl in m['payloads']:
+        if pl['type'] == codec.KE:
+            pl['group'] = alias
+    died = []
+    sim.monitors.append(lambda s_, ep, rec: died.append(rec) if rec.died else None)
+    rec = sim.inject(b, S.A4, S.B4, codec.encode_clear(m))
+    ck.count('ke_alias.requests')
+    ck.nontrivial(('ke-alias', g, alias))
+    if died:
+        ck.violation('loop-died-on-ke-group-alias', {'exc': repr(died[0].exc)}, sim.case)
+        return
+    res = sim.net.pop(0).data if sim.net else None
+    mm = codec.decode(res, strict_bodies=False) if res else None
+    normal = mm is not None and {x['type'] for x in mm['payloads']} >= {codec.SA, codec.KE, codec.NONCE}
+    nts = [x for x in (mm['payloads'] if mm else []) if x['type'] == codec.NOTIFY]
+    if normal or rec.dh or b.ctl.ike_sas:
+        ck.violation('ke-payload-in-another-group-accepted-as-the-chosen-group', {'chosen': g, 'ke_group_field': alias, 'dh_work': rec.dh, 'table': len(b.ctl.ike_sas)}, sim.case)
+    elif any(x.get('ntype') == 17 for x in nts):
+        ck.count('ke_alias.answered_invalid_ke_payload')
+        data = next(x['data'] for x in nts if x.get('ntype') == 17)
+        if data != struct.pack('>H', g):
+            ck.violation('invalid-ke-payload-does-not-name-the-chosen-group', {'data': data, 'want': g}, sim.case)
+    else:
+        ck.count('ke_alias.refused_otherwise')
+
+
 KE_SWEEP_CONFS = [
     # transform ids of the OTHER registries collide numerically with group numbers: INTEG sha512 = 14, sha256 = 12, sha1 = 2; PRF sha512 = 7, sha256 = 5; ENCR aes = 12
     dict(ike_a={'encr': ['aes256'], 'integ': ['sha512'], 'prf': ['sha512'], 'dh': ['19', '20']}, child_a={'encr': ['aes256'], 'integ': ['sha512'], 'dh': ['19', '20']}),
@@ -591,6 +628,9 @@ def run(ck):
     for i in range(64 if not ck.thorough() else 4000):
         if ck.mine(i // 8):
             foreign_attributes(ck, ck.rng('fattr', i), i)
+    for i in range(20 if not ck.thorough() else 400):
+        if ck.mine(i // 3):
+            ke_group_aliases(ck, ck.rng('kealias', i), i)
     for rep in range(1 if not ck.thorough() else 40):
         for vi in range(34):
             if ck.mine(vi + rep):
@@ -613,6 +653,7 @@ def verdict(ck):
     ck.floor('offers whose transforms carry unknown attributes: IKE suites chosen', c['foreign_attrs.ike_chosen'], 15)
     ck.floor('offers whose transforms carry unknown attributes: refused', c['foreign_attrs.ike_refused'] + c['foreign_attrs.child_refused'], 8)
     ck.floor('offers whose transforms carry unknown attributes: kernel SAs compared', c['foreign_attrs.newsa_checked'], 20)
+    ck.floor('KE payloads whose group number aliases the chosen group, answered INVALID_KE_PAYLOAD', c['ke_alias.answered_invalid_ke_payload'], 12)
     ck.floor('IKE_SA rekey selections compared', c['e2e.ike_rekey_selection_compared'], 150)
     ck.floor('INVALID_KE_PAYLOAD replies seen', c['e2e.invalid_ke_seen'] + c['e2e.child_invalid_ke'], 20)
     ck.floor('NO_PROPOSAL_CHOSEN outcomes seen', c['e2e.no_proposal_chosen_seen'] + c['e2e.child_no_proposal_chosen'], 10)
